@@ -48,6 +48,7 @@ TRUSTED = ["harness/sparqlgen.py (generator, SPARQL printer, s-expression encode
            "pyparsing tokenisation of the generated query text (the generator only prints fully parenthesised text)"]
 
 
+MAX_QUERY_TEXT = 2500
 _GENERATED = []   # query texts made by gen_case in this process (for the bulk algebra prefetch in model_lines)
 _ALG = {}         # query text -> s-expression of rdflib's translated algebra
 # parsing is the expensive step (pyparsing, ~20 ms a query): the worker processes of run_impl leave the encoded algebra in
@@ -67,6 +68,12 @@ def gen_case(rng, tier, i):
     dmax = 4 if tier == "quick" else 6
     depth = rng.choice([1, 1, 2, 2, 2, 3, 3, dmax])
     q = G.gen_query(rng, ds, depth=depth)
+    # very large queries (several kB of text, depth 6) are correct but take rdflib tens of seconds since MINUS right-hand
+    # sides and sub-selects are re-evaluated, unpushed, for every outer solution: the per-case watchdog (20 s) would
+    # report them as timeouts.  The property is about answers, not speed: keep queries to a size that evaluates quickly.
+    while len(G.to_sparql(q)) > MAX_QUERY_TEXT and depth > 1:
+        depth -= 1
+        q = G.gen_query(rng, ds, depth=depth)
     _GENERATED.append(G.to_sparql(q))
     return {"ds": ds, "q": q}
 
@@ -111,6 +118,8 @@ def run_impl(case):
         got = G.read_rdflib_result(g.query(pq) if len(text) % 4 else g.query(text))
         st["api_prepared" if len(text) % 4 else "api_text"] = 1
         impl_line = _canon(got, star)
+    except core.CaseTimeout:
+        raise
     except Exception as e:  # the fragment never raises in the specification
         got, impl_line = {"error": type(e).__name__}, "error " + type(e).__name__
     viol = []
